@@ -198,7 +198,13 @@ func followChild(args []string) {
 		}
 		if !hang && r.err == nil {
 			// end to end: a transfer with these follow-paths
-			ffs, err := fsutil.NewFilterFS(fsys, &fsutil.FilterOpt{FollowPaths: fc.Reqs})
+			fo := &fsutil.FilterOpt{FollowPaths: fc.Reqs}
+			if fc.Case%2 == 0 && r.l != nil {
+				// together with an include list (one that selects nothing by itself): the followed paths must still arrive
+				fo.IncludePatterns = []string{"zz-no-such-entry"}
+			}
+			ev["withInclude"] = fc.Case%2 == 0 && r.l != nil
+			ffs, err := fsutil.NewFilterFS(fsys, fo)
 			if err == nil {
 				sres, err := RunSync(fc.Case, src, dst, SyncOpts{Mode: "dirty", Differ: "metadata", CapS2R: 8, CapR2S: 8, SrcFS: ffs, NoProgress: true,
 					Timeout: 3 * time.Second})
@@ -303,6 +309,8 @@ func Follow(c *Ctx) error {
 			followCase{Tree: model.Tree{fl("a"), dr("a-b"), ln("a-b/a-b", "/a")}, Reqs: []string{"*/*"}},
 			followCase{Tree: model.Tree{dr("d1"), ln("d1/l", "/t"), fl("t")}, Reqs: []string{"d*/l"}},
 			followCase{Tree: model.Tree{dr("d1"), fl("d1/x"), ln("d2", "d1")}, Reqs: []string{"d?/x"}},
+			followCase{Tree: model.Tree{dr("dir"), ln("dir/l1", "../t1"), ln("dir/l2", "/t2"), fl("t1"), fl("t2")}, Reqs: []string{"dir/l[12]"}},
+			followCase{Tree: model.Tree{ln("la", "ta"), ln("lb", "tb"), dr("ta"), fl("ta/f"), dr("tb"), fl("tb/f")}, Reqs: []string{"l[ab]/f"}},
 		)
 		for i := range fixed {
 			fixed[i].Tree.Sort()
@@ -324,7 +332,7 @@ func Follow(c *Ctx) error {
 				var q string
 				switch c.Rand.Intn(8) {
 				case 0:
-					q = []string{"*", "l/*", "*/b", "a/*", "d/*/a", "d*/a", "l*", "d/l*", "?/b", "a/*/a", "m*/x", "*/*", "d*/l", "[al]/a"}[c.Rand.Intn(14)]
+					q = []string{"*", "l/*", "*/b", "a/*", "d/*/a", "d*/a", "l*", "d/l*", "?/b", "a/*/a", "m*/x", "*/*", "d*/l", "[al]/a", "l[a-z]", "d/[lm]", "[a-m]/b"}[c.Rand.Intn(17)]
 				case 1:
 					// requests are clean paths: the statement quantifies ".." over symlink targets, not over requests
 					q = []string{"nonexistent", "a/nonexistent/x", "/", "b/nonexistent", "."}[c.Rand.Intn(5)]
